@@ -74,6 +74,12 @@ type Env struct {
 	constVals    map[types.Object]Value
 	assignCount  map[types.Object]int
 	localTypes   map[string]types.Type
+	classVars    []string
+	forceClass   int
+	localDefs    map[types.Object][]ast.Expr
+	inlineClass  map[types.Object]*Term
+	curCallArgs  []ast.Expr
+	curCallHasRecv bool
 }
 
 type inlineFrame struct {
@@ -310,7 +316,12 @@ func (e *Env) coerce(v Value, t types.Type) Value {
 		return v
 	}
 	if k == VU {
-		return Value{K: VU, T: e.box(v), Typ: t}
+		r := Value{K: VU, T: e.box(v), Typ: t}
+		if v.K == VPtr || v.K == VStruct {
+			d := v
+			r.Dyn = &d
+		}
+		return r
 	}
 	if v.K == VU {
 		// unboxing an opaque value into a modelled kind: unconstrained
@@ -379,10 +390,13 @@ func (e *Env) wfSlice(v Value) *Term {
 	c := And(Le(zero, v.Off), Le(v.Off, sb), Le(zero, v.Len), Le(v.Len, v.Cap), Le(v.Cap, sb),
 		Lt(v.Ref, e.nextRef()),
 		Implies(Eq(v.Ref, zero), And(Eq(v.Cap, zero), Eq(v.Off, zero))))
-	if at, ok := v.Typ.Underlying().(*types.Array); ok {
-		c = And(c, Eq(v.Len, IntLit(at.Len())), Eq(v.Cap, IntLit(at.Len())))
+	if v.Typ != nil {
+		if at, ok := v.Typ.Underlying().(*types.Array); ok {
+			return And(c, Eq(v.Len, IntLit(at.Len())), Eq(v.Cap, IntLit(at.Len())))
+		}
 	}
-	return c
+	// refs of slices: allocated (> 0), nil (0) or one of the constant byte slices (small negative)
+	return And(c, Gt(v.Ref, IntLit(-1000)))
 }
 
 func (e *Env) wfStr(v Value) *Term {
@@ -457,6 +471,11 @@ func (e *Env) loadField(id *Term, lf leaf) Value {
 	case VU:
 		return Value{K: VU, T: get("", SArrU), Typ: lf.Typ}
 	case VSlice:
+		if at, ok := lf.Typ.Underlying().(*types.Array); ok {
+			// inline array: storage owned by the object (distinct from every allocated or constant array)
+			n := IntLit(at.Len())
+			return Value{K: VSlice, Ref: App("arrref$"+lf.Owner+"$"+lf.Field, SInt, id), Off: IntLit(0), Len: n, Cap: n, ElemU: lf.ElemU, Typ: lf.Typ}
+		}
 		return Value{K: VSlice, Ref: get(".ref", SArr), Off: get(".off", SArr), Len: get(".len", SArr), Cap: get(".cap", SArr), ElemU: lf.ElemU, Typ: lf.Typ}
 	case VStr:
 		return Value{K: VStr, Arr: get(".arr", SArrA), Off: get(".off", SArr), Len: get(".len", SArr), Typ: lf.Typ}
@@ -479,6 +498,10 @@ func (e *Env) storeField(id *Term, lf leaf, v Value) {
 	case VU:
 		put("", SArrU, v.T)
 	case VSlice:
+		if _, ok := lf.Typ.Underlying().(*types.Array); ok {
+			e.errorf("assignment of whole arrays is not modelled (%s.%s)", lf.Owner, lf.Field)
+			return
+		}
 		r, o, l, c := e.tmp(v.Ref), e.tmp(v.Off), e.tmp(v.Len), e.tmp(v.Cap)
 		put(".ref", SArr, r)
 		put(".off", SArr, o)
@@ -504,6 +527,13 @@ func subID(id *Term, steps []subStep) *Term {
 func (e *Env) copyStruct(dst, src *Term, t types.Type) {
 	src = e.tmp(src)
 	walkLeaves(t, nil, func(steps []subStep, lf leaf) {
+		if _, isArr := lf.Typ.Underlying().(*types.Array); isArr {
+			// copy the cells of an inline array
+			sv := e.loadField(subID(src, steps), lf)
+			dv := e.loadField(subID(dst, steps), lf)
+			e.setMemArr(dv.Ref, Select(e.mem(), sv.Ref))
+			return
+		}
 		v := e.loadField(subID(src, steps), lf)
 		e.storeField(subID(dst, steps), lf, e.freeze(v))
 	})
@@ -551,6 +581,10 @@ func findField(t types.Type, name string) (steps []subStep, lf *leaf, sub types.
 			return nil, &leaf{Owner: key, Field: name, Typ: f.Type(), K: k, ElemU: eu}, nil, true
 		}
 	}
+	if kind, ok := ghostFieldTable[key][name]; ok {
+		gl := ghostLeaf(key, name, kind)
+		return nil, &gl, nil, true
+	}
 	for i := 0; i < st.NumFields(); i++ {
 		f := st.Field(i)
 		if !f.Embedded() {
@@ -590,6 +624,15 @@ func (e *Env) assumeTyping(v Value) {
 		switch lf.K {
 		case VInt, VSlice, VStr:
 			e.assume(e.wfLoaded(e.loadField(subID(v.T, steps), lf)))
+		case VPtr:
+			// one level through pointer fields (e.g. fmt.buf)
+			pv := e.loadField(subID(v.T, steps), lf)
+			walkLeaves(derefType(lf.Typ), nil, func(st2 []subStep, l2 leaf) {
+				switch l2.K {
+				case VInt, VSlice, VStr:
+					e.assume(e.wfLoaded(e.loadField(subID(pv.T, st2), l2)))
+				}
+			})
 		}
 	})
 }
